@@ -134,15 +134,26 @@ class Prop:
                                  {'kind': 'strict-miss' if bad else 'strict-diff'})
         # multi-part: every subset of parts corrupted
         mlines, meta = [], []
-        for parts in (base['two'], base['three']):
+        # ... also of messages one of whose fragments has an EMPTY payload (pyais issue #157: `!AIVDM,2,2,0,A,,0*16`)
+        bits8 = gen.payload_bits(rng, 'MessageType8', length=360)
+        pl8, fill8 = gen.armor(bits8)
+        empty_last = [gen.sentence('AIVDM', 2, 1, '0', 'A', pl8, fill8), gen.sentence('AIVDM', 2, 2, '0', 'A', '', 0)]
+        empty_mid = [gen.sentence('AIVDM', 3, 1, '4', 'B', pl8[:30], 0), gen.sentence('AIVDM', 3, 2, '4', 'B', '', 0),
+                     gen.sentence('AIVDM', 3, 3, '4', 'B', pl8[30:], fill8)]
+        for parts in (base['two'], base['three'], empty_last, empty_mid):
             n = len(parts)
             for mask in range(1 << n):
                 ps = []
                 for i, p in enumerate(parts):
                     if mask >> i & 1:
-                        j = rng.randrange(1, p.rfind(b','))
-                        repl = bytes([p[j] ^ 1]) if (p[j] ^ 1) not in (42, 44) else bytes([p[j] ^ 2])
-                        p = p[:j] + repl + p[j + 1:]
+                        if rng.random() < 0.3:
+                            # a wrong checksum value instead of a corrupted body
+                            good = int(p[-2:], 16)
+                            p = p[:-2] + b'%02X' % rng.choice([v for v in range(256) if v != good])
+                        else:
+                            j = rng.randrange(1, p.rfind(b','))
+                            repl = bytes([p[j] ^ 1]) if (p[j] ^ 1) not in (42, 44) else bytes([p[j] ^ 2])
+                            p = p[:j] + repl + p[j + 1:]
                     ps.append(p)
                 import itertools
                 for order in itertools.permutations(range(n)):       # decode() takes the parts in any order
